@@ -342,9 +342,9 @@ func init() {
 	fw.Register(&fw.Prop{
 		ID: "C12", Cases: func(t string) int64 {
 			if t == "thorough" {
-				return int64(len(gridCases)) + 5000
+				return int64(len(gridCases)) + 8000
 			}
-			return int64(len(gridCases)) + 60
+			return int64(len(gridCases)) + 400
 		},
 		Run: func(c *fw.Ctx) {
 			gc := &GpkgCase{Seed: c.Rng.Uint64()}
